@@ -21,13 +21,8 @@ package custom
 //@ pred CF(f *Filters) = forall id string :: ashas[f.cache][id] ==> allocated(cfItem(f, id)) && allocated(cfItem(f, id).ruleList) &&
 //@        cfItem(f, id).updTime == rlStamp[cfItem(f, id).ruleList]
 
-//@ func rulelist.NewImmutable
-//@   modifies nothing
-//@   ensures err == nil ==> f != nil && fresh(f)
-//@   ensures err != nil ==> f == nil
+// (rulelist.NewImmutable: assumed contract in rulelist's own contract file)
 //@ func (*rulelist.filter).RulesCount
-//@   modifies nothing
-//@ interface errcoll.Interface method Collect
 //@   modifies nothing
 
 //@ func (*Filters).get
